@@ -32,12 +32,12 @@ ANCHORS = ["uvl_reader.py:UVLReader.set_parse_tree", "uvl_reader.py:CustomErrorL
 NSHARDS = 16
 LOG5 = ("NOT", "AND", "OR", "IMPLIES", "EQUIVALENCE")
 KNOBS = ["quote_all", "redundant_parens", "merge_groups", "indent2", "indent4", "indent8", "comments", "namespace", "namespace_root",
-         "imports", "include", "card_short", "abstract_true", "boolean_explicit", "card_for_all", "tight"]
+         "imports", "imports_named", "include", "card_short", "abstract_true", "boolean_explicit", "card_for_all", "tight"]
 
 
 def plan(tier, seed):
     return [{"shard": i, "nshards": NSHARDS, "n_pos": 40 if tier == "quick" else 500,
-             "n_neg": 12 if tier == "quick" else 150} for i in range(NSHARDS)]
+             "n_neg": 12 if tier == "quick" else 150, "n_big": 1 if tier == "quick" else 3} for i in range(NSHARDS)]
 
 
 def inj_aggr(kind):
@@ -74,6 +74,24 @@ def inj_root_attr_ref(spec, r):
     other = r.choice(S.feature_names(spec))
     spec["ctcs"].append({"name": "x", "ast": ["IMPLIES", other, [r.choice(S.COMPARE), root["name"] + ".cost", r.choice([3, 10])]]})
     return spec
+
+
+def big_nonascii_spec(r, nbytes):
+    """A flat catalogue whose UVL text is at least `nbytes` bytes of UTF-8: 2-, 3- and 4-byte characters in names,
+    string attributes and constraint references, with line lengths that vary (so character offsets drift)."""
+    alph = ["é", "ñ", "ü", "ß", "ø", "Ж", "ю", "λ", "Ω", "語", "型", "車", "機", "能", "한", "글", "𝒳", "😀"]
+    kids, size, n = [], 0, 0
+    while size < nbytes:
+        nm = "".join(r.choice(alph) for _ in range(r.randint(3, 9))) + str(n)
+        val = "".join(r.choice(alph + [" ", "a"]) for _ in range(r.randint(1, 14)))
+        kids.append({"name": nm, "rels": [], "attrs": [{"name": "label", "value": val}, {"name": "cost", "value": n}]})
+        size += len(nm.encode()) + len(val.encode()) + 28
+        n += 1
+    rels = [{"min": r.choice([0, 1]), "max": 1, "children": [c]} for c in kids]
+    spec = {"root": {"name": "Catálogo", "rels": rels}, "ctcs": []}
+    for a, b in zip(kids[::97], kids[50::97]):
+        spec["ctcs"].append({"name": "x", "ast": ["IMPLIES", a["name"], ["OR", b["name"], ["GREATER", a["name"] + ".cost", 3]]]})
+    return fix_ctcs(spec)
 
 
 def classes():
@@ -319,6 +337,10 @@ def run_shard(desc, acc):
                 continue
             # each knob alone (round robin), then random combinations
             which = KNOBS[(j + i) % len(KNOBS)] if j % 3 == 0 else (None if j % 3 == 1 else "")
+            if which == "imports_named" and spec["ctcs"] is not None:
+                # the alias is the name of a feature whose attribute a constraint refers to as Feature.attr
+                spec = inj_root_attr_ref(spec, r) if j % 2 else inject.inj_ctc_uvl("cmp:" + S.COMPARE[j % len(S.COMPARE)])(spec, r) or spec
+                spec = fix_ctcs(spec)
             if which == "":
                 knobs, ch = E.Knobs(r), []
             else:
@@ -334,6 +356,12 @@ def run_shard(desc, acc):
                     pass
             if len(acc.samples) < 2 and tags and ch:
                 acc.sample({"knobs": ch, "tags": tags, "document": E.emit(spec, knobs)[:900]})
+        # documents larger than the block sizes a reader may decode in (64 KiB and multiples), with multi-byte
+        # characters throughout, so that some character straddles every block boundary of every plausible size
+        for j in range(desc.get("n_big", 1)):
+            r = rand.rng(seed, "c04big", i, j)
+            idx += 1
+            judge_positive(acc, big_nonascii_spec(r, 70_000 + 9_000 * i + 66_000 * j), ["doc:big-nonascii"], E.Knobs(r), [], work, idx)
         for j, (txt, spec) in enumerate(valid_docs):
             r = rand.rng(seed, "c04neg", i, j)
             for name, mut in mutants(txt, r):
